@@ -14,6 +14,7 @@ import shutil
 import sys
 import tempfile
 
+import numpy as np
 import sympy
 
 from .. import build, gen
@@ -152,6 +153,13 @@ def faults(a):
     for c in ct:
         yield f"pnoise:missing:{c}", PN, "pnoise-missing", lambda x, c=c: x.process_noise.pop(c)
         yield f"pnoise:negative:{c}", PN, "pnoise-negative", lambda x, c=c: x.process_noise.__setitem__(c, -abs(x.process_noise[c]) - 0.5)
+        # the same fault written with other number types
+        import fractions
+
+        for tag, val in (("int", -1), ("fraction", fractions.Fraction(-1, 3)), ("rational", sympy.Rational(-9, 4)),
+                         ("npfloat32", np.float32(-0.5)), ("npint", np.int64(-2))):
+            yield (f"pnoise:negative-{tag}:{c}", PN, "pnoise-negative",
+                   lambda x, c=c, val=val: x.process_noise.__setitem__(c, val))
 
         def bystr(x, c=c):
             v = x.process_noise.pop(c)
